@@ -26,7 +26,7 @@ use std::{
     iter::FusedIterator,
     mem::take,
     ops::{Deref, DerefMut},
-    sync::Arc,
+    sync::{Arc, Weak},
 };
 use tokio::sync::{RwLock, RwLockReadGuard, oneshot, watch};
 use tracing::Instrument;
@@ -967,7 +967,10 @@ where
         let inner_task = inner.clone();
 
         // Process change events.
-        let tx_send = tx.clone();
+        // The task owns the relay sender, so that the relay channel is closed and
+        // subscribers of the mirror are notified when the task ends for any reason.
+        let tx_send = Arc::new(tx);
+        let tx = Arc::downgrade(&tx_send);
         exec::spawn(
             async move {
                 loop {
@@ -1017,7 +1020,7 @@ where
 /// A hash map that is mirroring an observable hash map.
 pub struct MirroredHashMap<K, V, Codec = crate::codec::Default> {
     inner: Arc<RwLock<Option<MirroredHashMapInner<K, V>>>>,
-    tx: rch::broadcast::Sender<HashMapEvent<K, V>, Codec>,
+    tx: Weak<rch::broadcast::Sender<HashMapEvent<K, V>, Codec>>,
     changed_rx: watch::Receiver<()>,
     _dropped_tx: oneshot::Sender<()>,
 }
@@ -1097,7 +1100,11 @@ where
     pub async fn subscribe(&self, buffer: usize) -> Result<HashMapSubscription<K, V, Codec>, RecvError> {
         let view = self.borrow().await?;
         let initial = view.clone();
-        let events = if view.is_done() { None } else { Some(self.tx.subscribe(buffer)) };
+        let events = if view.is_done() {
+            None
+        } else {
+            Some(self.tx.upgrade().ok_or(RecvError::Closed)?.subscribe(buffer))
+        };
 
         Ok(HashMapSubscription::new(HashMapInitialValue::new_value(initial), events))
     }
@@ -1114,7 +1121,11 @@ where
     ) -> Result<HashMapSubscription<K, V, Codec>, RecvError> {
         let view = self.borrow().await?;
         let initial = view.clone();
-        let events = if view.is_done() { None } else { Some(self.tx.subscribe(buffer)) };
+        let events = if view.is_done() {
+            None
+        } else {
+            Some(self.tx.upgrade().ok_or(RecvError::Closed)?.subscribe(buffer))
+        };
 
         Ok(HashMapSubscription::new(
             HashMapInitialValue::new_incremental(initial, Arc::new(default_on_err)),
